@@ -3,9 +3,11 @@ C03 (geometry) for PM stage 2c: every line of every page ends above the bottom o
 the first line of the first content placed on an empty page or the first line of a column box — for ALL documents
 of the extended grammar (any columns, `column-span: all` children included, any break values, fixed heights,
 nested blocks, the second layout with a larger bottom space, `find_earlier_page_break`) whose decorations are not
-negative: `DecoOk` = stage-1 `PStyle.DecoOk` in paragraphs and blocks, and for a container
-`margin-bottom + padding-bottom + border-bottom ≥ 0`.  Without the last hypothesis the statement is false
-(`Witness.C01Col.container_negative_margin_overflows`).
+negative: `DecoOk` = stage-1 `PStyle.DecoOk` in paragraphs and blocks, and for a container only
+`padding-bottom + border-bottom ≥ 0` (always true in CSS).  Until the repair 94e08d4 the theorem also needed
+`margin-bottom + padding-bottom + border-bottom ≥ 0` on every container (the second layout of `block_box_layout`
+could shrink the bottom space); that hypothesis is gone: `paginate_line_fits` is the full-strength statement, and
+`Witness.C01Col.container_negative_margin_fits` is the regression theorem on the former counterexample.
 
 `lh` maps a paragraph id to its line height (paragraph fragments do not record it); `LhOk lh box` says it agrees
 with the source — any document with distinct paragraph ids has such an `lh`.
@@ -40,7 +42,7 @@ theorem decoOk_emptyRoot (b : ColBox) (h : PMC.DecoOk b) : PMC.DecoOk (PMC.empty
     simp [PMC.emptyRoot, PMC.DecoOk, PMC.DecoOkList, h.1]
   | columns id st cs flags kids =>
     simp only [PMC.DecoOk] at h
-    simp [PMC.emptyRoot, PMC.DecoOk, PMC.DecoOkList, h.1, h.2.1]
+    simp [PMC.emptyRoot, PMC.DecoOk, PMC.DecoOkList, h.1]
 
 theorem lhOk_emptyRoot (lh : Nat → Rat) (b : ColBox) (h : LhOk lh b) : LhOk lh (PMC.emptyRoot b) := by
   cases b with
